@@ -17,7 +17,7 @@ ASSUMPTIONS = [
     "generators have distinct priorities per path (ties are not specified)",
     "the device file differ is annet.diff.UnifiedFileDiffer (the shipped default implementation), PC hardware, software string without Cumulus/SONiC",
 ]
-FLOORS = {"quick": {"listing_orders": 3000, "jobs_parsed": 3000, "shared_paths": 500, "forced_runs": 500, "diffs_checked": 1500, "cases_with_unsupported_generators": 400, "safe_mode_jobs": 2000, "safe_mode_jobs_with_empty_safe_set": 200, "cases_with_multi_line_files": 800, "cases_with_a_device_file_holding_the_same_lines_in_another_order": 300, "cases_with_instance_level_priorities": 800, "generators_without_a_reload_command": 500, "jobs_with_real_deploy_options": 3000, "generators_without_a_path_for_the_device": 300},
+FLOORS = {"quick": {"listing_orders": 3000, "jobs_parsed": 3000, "shared_paths": 500, "forced_runs": 500, "diffs_checked": 1500, "cases_with_unsupported_generators": 400, "safe_mode_jobs": 2000, "safe_mode_jobs_with_empty_safe_set": 200, "cases_with_multi_line_files": 800, "cases_with_a_device_file_holding_the_same_lines_in_another_order": 300, "cases_with_instance_level_priorities": 800, "generators_without_a_reload_command": 500, "jobs_with_real_deploy_options": 3000, "generators_without_a_path_for_the_device": 300, "cases_with_a_word_that_contains_None": 200},
           "thorough": {"listing_orders": 120000, "jobs_parsed": 120000, "shared_paths": 20000, "forced_runs": 20000, "diffs_checked": 60000, "cases_with_unsupported_generators": 15000, "safe_mode_jobs": 80000, "safe_mode_jobs_with_empty_safe_set": 8000}}
 PATHS = ["/etc/a.conf", "/etc/b/b.conf", "/etc/c"]
 KNOWN_NL = "C19/upload-decision-blind-to-trailing-newline"
@@ -162,6 +162,12 @@ def check_case(seed, acc, unsupported=False, perm=False, inst=False):
                 else:
                     body = [body[0] + " "] + body[1:]
                 old[g["path"]] = "\n".join(body + tail)
+        wrng = random.Random(seed ^ 0x40E)
+        if wrng.random() < 0.4:
+            # words that merely contain the letters of Python's None (a site name, a port name): ordinary file content
+            g = wrng.choice(gens_spec)
+            g["output"] = wrng.choice(["owner NoneSuch-dc1\n", "port xeNone0\nport xe1\n", "mode NONE\nnone\n"]) + g["output"]
+            acc.count("cases_with_a_word_that_contains_None")
         acc.count("cases_with_multi_line_files")
         if any(old.get(g["path"]) is not None and old[g["path"]] != g["output"] and sorted(old[g["path"]].split("\n")) == sorted(g["output"].split("\n")) for g in gens_spec):
             acc.count("cases_with_a_device_file_holding_the_same_lines_in_another_order")
